@@ -171,6 +171,15 @@ class HostRig:
         await self.settle()
         return self._event({"a": "tick"})
 
+    async def hostreset(self):
+        """the host writes an RST (AshProtocol.send_reset, as Gateway.reset() does): the link stays as it is until the RSTACK arrives"""
+        try:
+            self.p.send_reset()
+        except BaseException as e:  # noqa
+            self.out.append({"o": "raised", "exc": type(e).__name__})
+        await self.settle()
+        return self._event({"a": "hostreset"})
+
     async def cancel(self, i: int):
         self.tasks[i].cancel()
         await self.settle()
